@@ -248,7 +248,7 @@ def check_ref_from_bytes(ctx, F, hty):
               A.site(bb), how="fatptr(%s, %s)" % (G.show(addr), G.show(meta)), why="fatptr(%s, %s)" % (G.show(addr), G.show(meta)))
     if not (good_addr and atom is not None):
         return
-    facts = A.g.facts_at(bb)
+    facts = G.resolve_saturating(A.g.facts_at(bb))
     need = ("cmp", "Le", ("bin", "Add", ("c", hs), meta, "usize"), ("len", bytes_slice))
     j = G.entails(facts, need)
     ctx.check(j is not None, "B3", lab,
@@ -268,8 +268,9 @@ def check_ref_from_bytes(ctx, F, hty):
     errs = [e for e in ex if e.kind == "Err" and not cannot_be_taken(e)]
     dead = [e for e in ex if e.kind == "Err" and cannot_be_taken(e)]
     oks = [e for e in ex if e.kind == "Ok"]
-    good = len(errs) == 1 and errs[0].variant == "InvalidReportedTotalSize" and len(oks) == 1 and CH.precedes(errs[0], oks[0]) and \
-        all(e.variant == "InvalidReportedTotalSize" for e in dead)
+    # (an exit no input can take - its guard contradicts the facts it is reached under, the BytesRef invariants included - may
+    # name any error: `len.checked_sub(size_of::<H>())` answering None)
+    good = len(errs) == 1 and errs[0].variant == "InvalidReportedTotalSize" and len(oks) == 1 and CH.precedes(errs[0], oks[0])
     ctx.check(good, "B3", lab + ":error",
               "the only error exit of ref_from_bytes is InvalidReportedTotalSize, taken exactly when the size test fails",
               A.site(), how="exits %s" % ex, why="exits %s" % ex)
